@@ -360,7 +360,16 @@ def gen_form_tree(r, depth=0):
         elif x < 0.8:
             inner = ('e', 'html', None, None, [], [('e', 'body', None, None, [('dir', r.choice(['rtl', 'ltr']))] if r.random() < 0.5 else [],
                                                    gen_form_tree(r, depth + 1)[5])])
-            kids.append(('e', 'iframe', None, None, [], [inner]))
+            y = r.random()
+            if r.random() < 0.5:
+                # a radio group that straddles the frame boundary: same-named radios inside the embedded document (outside any
+                # form there) and outside it; group membership must not cross the boundary in either direction
+                def radio(checked):
+                    return ('e', 'input', None, None, [('type', 'radio'), ('name', 'g1')] + ([('checked', '')] if checked else []), [])
+                inner[5][0][5].extend([radio(r.random() < 0.4) for _ in range(r.randint(1, 2))])
+                kids.insert(r.randint(0, len(kids)), radio(r.random() < 0.5))
+            # an embedded document, or (as parsers that keep the content as text, or authors, leave it) an empty / text-only iframe
+            kids.append(('e', 'iframe', None, None, [], [inner] if y < 0.65 else [] if y < 0.9 else [('t', r.choice(['x', ' ']))]))
         elif x < 0.9:
             kids.append(('t', r.choice(BIDI_TEXTS)))
         else:
